@@ -225,7 +225,7 @@ Proof.
       apply Hin_gfs. exists g. tauto. }
   rewrite apply_all_app.
   split; [|split].
-  - intros g Hg. unfold gen_file at 1. rewrite removes_lookup. fold (gen_file a p (g_name g)).
+  - intros g Hg. unfold gen_file at 1. rewrite removes_lookup. unfold removal_order. rewrite mem_rank_sort. fold (gen_file a p (g_name g)).
     destruct (kept g p) eqn:Hk.
     + (* retained: its name was struck from the removal set *)
       assert (Hnr : mem_bytes (fname a (g_name g)) rem = false).
@@ -270,7 +270,7 @@ Proof.
     { unfold kept, is_zero. destruct (go_body (gen_run E g p)); [contradiction | reflexivity]. }
     assert (Hin : In (g_name g, go_body (gen_run E g p)) (e_order E p gfs)) by (apply Hin_gfs; exists g; tauto).
     destruct (Hlk _ _ s Hin) as [_ H2]. apply H2. exact Hne.
-  - intros f Hf Hpre Hnone. rewrite removes_lookup.
+  - intros f Hf Hpre Hnone. rewrite removes_lookup. unfold removal_order. rewrite mem_rank_sort.
     assert (Hr : mem_bytes f rem = true).
     { apply mem_bytes_In. apply Hrem. split.
       - unfold generated_files. apply filter_In. tauto.
